@@ -41,7 +41,8 @@ def norm(s):
 def gen_set(rng):
     texts = ["Hello there", "two  words", "R&D <dept>", "it's \"q\"", "-->", "a & b", "Ünï çødé", "1", "x",
              "write &lt; for less", "&amp;lt; twice", "&apos; &quot; &nbsp;", "&#60;b&#62;",
-             "Press <b> to go back, <i> for info", "a <c and c> d", "<v Bob> said", "<00:01.000> later"]
+             "Press <b> to go back, <i> for info", "a <c and c> d", "<v Bob> said", "<00:01.000> later",
+             "{sighs} I know.", "{applause}", "{y:i}{c:$0000ff} not a code", "[music] {1}{2}", "- Yes. - No."]
     from props import samples
     texts = texts + [" ".join(t.split()) for t in samples.rich_lines(rng, 8, pipe_ok=False)]
     # (language codes one of which is a prefix of the other, in both orders)
@@ -78,11 +79,19 @@ def coarsest(chain):
     return "frame" if "microdvd" in chain else "ms"
 
 
+_OBJECTS = {}
+
+
 def run_chain(cs, chain):
+    """one writer and one reader object per format for the whole run (what a conversion step returns depends on
+    its input only, also when the objects have converted other documents before)"""
     cur = cs
     for f in chain:
         W, R = FORMATS[f]
-        cur = R().read(W().write(cur))
+        if f not in _OBJECTS:
+            _OBJECTS[f] = (W(), R())
+        w, r = _OBJECTS[f]
+        cur = r.read(w.write(cur))
     return cur
 
 
